@@ -44,6 +44,12 @@ extern "C" void harness_main()
     // A decoder for a prefix ISA must look at a following byte to find out that a
     // sequence is undefined; so the claim is made for the longer of the two decodes:
     // if the second decode also stays inside the first n bytes, the results agree.
+#ifdef STRIP_SEMI_COMMENT
+    // "; (1234)" after an indirect PDP-8 operand shows the memory word the operand points to: a comment about
+    // other memory (which may be the following word), not part of the instruction text
+    for (int i = 0; text[i]; i++) if (text[i] == ' ' && text[i + 1] == ';') { text[i] = 0; break; }
+    for (int i = 0; t2[i]; i++) if (t2[i] == ' ' && t2[i + 1] == ';') { t2[i] = 0; break; }
+#endif
     symx_assert(n2 > n || n2 == n, "length does not depend on bytes after the instruction");
     symx_assert(n2 > n || strcmp(t2, text) == 0, "text does not depend on bytes after the instruction");
   }
